@@ -194,7 +194,7 @@ fn line_of<T: Spanned>(t: &T) -> usize {
 
 /// Source text of a syntax node with the token-stream spacing tidied up.
 fn src<T: ToTokens>(t: &T) -> String {
-    tidy(&t.to_token_stream().to_string())
+    tidy(&t.to_token_stream().to_string()).replace("__M_", "$")
 }
 
 fn tidy(s: &str) -> String {
@@ -256,8 +256,20 @@ fn is_cfg_test(attrs: &[syn::Attribute]) -> bool {
     })
 }
 
+fn mentions_zcs(ts: TokenStream) -> bool {
+    ts.into_iter().any(|t| match t {
+        TokenTree::Ident(i) => i == "ZeroCopySend",
+        TokenTree::Group(g) => mentions_zcs(g.stream()),
+        _ => false,
+    })
+}
+
+/// `#[derive(.. ZeroCopySend ..)]`; a conditional `#[cfg_attr(c, derive(.. ZeroCopySend ..))]` counts too.
 fn derives_zcs(attrs: &[syn::Attribute]) -> bool {
     attrs.iter().any(|a| {
+        if a.path().is_ident("cfg_attr") {
+            return matches!(&a.meta, syn::Meta::List(l) if mentions_zcs(l.tokens.clone()));
+        }
         a.path().is_ident("derive")
             && a.parse_args_with(syn::punctuated::Punctuated::<syn::Path, syn::Token![,]>::parse_terminated)
                 .map(|ps| ps.iter().any(|p| p.segments.last().map(|s| s.ident == "ZeroCopySend").unwrap_or(false)))
@@ -539,6 +551,11 @@ impl World {
                 }
                 syn::Item::Const(c) => {
                     self.consts.insert(c.ident.to_string());
+                    let mut lf = LocalFinder { found: vec![] };
+                    syn::visit::Visit::visit_expr(&mut lf, &c.expr);
+                    for (l, t) in lf.found {
+                        self.note(format!("{}:{} `{}` is declared inside a const initializer: not tabled", file, l, t));
+                    }
                 }
                 syn::Item::Impl(im) => {
                     if is_cfg_test(&im.attrs) {
@@ -598,6 +615,9 @@ impl World {
                     if let (Some(id), "macro_rules") = (&m.ident, name.as_str()) {
                         self.macros.push(MacroDef { name: id.to_string(), scope, file: file.to_string(), line: line_of(id), tokens: m.mac.tokens.clone() });
                     } else {
+                        if mentions_zcs(m.mac.tokens.clone()) {
+                            self.err(&format!("{}:{}", file, line_of(&m.mac.path)), format!("the arguments of the macro invocation `{}!` mention ZeroCopySend (a derive or impl passed through a macro): not supported", name));
+                        }
                         self.invocations.push(Invocation { name, scope, file: file.to_string(), line: line_of(&m.mac.path), tokens: m.mac.tokens.clone() });
                     }
                 }
@@ -925,7 +945,7 @@ impl World {
         }
         let names: Vec<String> = segs.iter().map(|s| s.ident.to_string()).collect();
         let expanded = self.expand_path(cx.scope, &names);
-        let short = names.last().unwrap().clone();
+        let short = expanded.last().unwrap().clone(); // differs from the written name for `use a::B as C`
         let path = expanded.join("::");
         let last = *segs.last().unwrap();
         if let syn::PathArguments::Parenthesized(_) = last.arguments {
@@ -1081,8 +1101,9 @@ impl World {
                 continue;
             }
             let written = names.last().unwrap().clone();
-            let path = self.expand_path(im.scope, &names).join("::");
-            let item = match self.lookup(&written, &path) {
+            let expanded = self.expand_path(im.scope, &names);
+            let path = expanded.join("::");
+            let item = match self.lookup(expanded.last().unwrap(), &path) {
                 Lk::None if im.zcs && EXTERNAL_ROOTS.contains(&path.split("::").next().unwrap_or("")) => {
                     self.leaf_impls.push(format!("{} ({})", src(t), at));
                     continue;
@@ -1395,7 +1416,7 @@ impl World {
                         TokenTree::Ident(id) if id.to_string().starts_with("__M_") && k + 3 == end => {
                             let var = id.to_string()[4..].to_string();
                             let gen = names_text(&self.generated_names(m, matcher, &var, true));
-                            self.note(format!("{} `impl {} for ${}` inside macro_rules! {} (defined at {}:{}): not tabled (leaf); types generated by invocations in the same file: {}", at, tr, var, m.name, m.file, m.line, gen));
+                            self.note(format!("{} `impl {} for ${}` inside macro_rules! {} (defined at {}:{}): NO OManualImpl row is made from it (the generated types are rows only if something else makes them one, e.g. OAux); types generated by invocations in the same file: {}", at, tr, var, m.name, m.file, m.line, gen));
                         }
                         _ => self.err(&at, format!("`impl {} for {}` inside macro_rules! {}: self type is not a plain $metavariable; not supported", tr, selfty, m.name)),
                     }
